@@ -33,7 +33,7 @@ CertVecs ==
 
 (*************************** identities *************************************)
 IdentityFns == << "ReadKeysAndCert", "ReadKeysAndCertElgAndEd25519", "ReadKeysAndCertX25519AndEd25519",
-                  "ReadDestination", "NewDestinationFromBytes", "NewDestination(ReadKeysAndCert)",
+                  "ReadDestination", "NewDestinationFromBytes", "NewDestination(ReadKeysAndCert)", "ReadDestinationFromLeaseSet",
                   "ReadRouterIdentity", "NewRouterIdentityFromBytes", "NewRouterIdentityFromKeysAndCert(ReadKeysAndCert)" >>
 KeyCertBytes(st, ct, extra) == SerCert(CertKey, KeyCertPayload(st, ct) \o Fill(Max(ExcessFor(st, ct), 0) + extra, st + 3 * ct))
 CertOfKind(kind, st, ct) ==
@@ -42,6 +42,10 @@ CertOfKind(kind, st, ct) ==
     [] kind = "key" -> KeyCertBytes(st, ct, 0)
     [] kind = "keyx1" -> KeyCertBytes(st, ct, 1)
     [] kind = "keyx9" -> KeyCertBytes(st, ct, 9)
+    \* declared payload lengths at the top of the two-byte range (65533, 65534, 65535 for types without excess key material)
+    [] kind = "keyhuge3" -> KeyCertBytes(st, ct, 65529 - Max(ExcessFor(st, ct), 0))
+    [] kind = "keyhuge4" -> KeyCertBytes(st, ct, 65530 - Max(ExcessFor(st, ct), 0))
+    [] kind = "keyhuge5" -> KeyCertBytes(st, ct, 65531 - Max(ExcessFor(st, ct), 0))
     [] kind = "keyshort" -> << 5, 0, 3, 0, 7, 0 >>
     [] kind = "keytrunc" -> << 5, 0, 4, 0, 7 >>
     [] kind = "t1" -> << 1, 0, 5, 1, 2, 3, 4, 5 >>
@@ -84,6 +88,9 @@ IdentVecs ==
   \o Cross2(LibPairs, << "keyx1", "keyx9" >>, LAMBDA p, kind :
        IdentitySession(kind, p[1], p[2], p[1] + p[2], IF Thorough THEN SweepFnsAll ELSE SweepFnsQuick, IF Thorough THEN 0 ELSE BlockLen - 2))
   \o SeqMap(LAMBDA kind : IdentitySession(kind, 0, 0, 77, SweepFnsAll, IF Thorough THEN 0 ELSE BlockLen - 2), OtherKinds)
+  \o SeqMap(LAMBDA kind : LET w == IdentityEnc(kind, 7, 4, 31) IN
+              [ops |-> << [op |-> "Twins", fns |-> << "ReadKeysAndCert", "ReadDestination", "ReadDestinationFromLeaseSet", "ReadRouterIdentity" >>, in |-> w \o << 1, 2, 3 >>,
+                           L |-> Len(w), cls |-> kind \o "/7/4+tail"] >>], << "keyhuge3", "keyhuge5" >>)
   \o Cross2(LibPairs, << "key" >>, LAMBDA p, kind :
        IdentitySession(kind, p[1], p[2], 200 + p[1] + p[2], SweepFnsAll, IF Thorough THEN 0 ELSE BlockLen - 2))
 
